@@ -123,12 +123,15 @@ def case(ctx, i, tier):
         tail = evs[j:]
         tr.add_events(evs[:j])
         import pandas as pd
-        df = pd.DataFrame({"uid": [e.uid for e in tail], "v": [e.v for e in tail]},
+        # the table also carries a column named 'time' (a reference period EARLIER than the
+        # publication time): the index, not that column, is the event's time
+        df = pd.DataFrame({"uid": [e.uid for e in tail], "v": [e.v for e in tail],
+                           "time": [e.time - timedelta(days=1 + e.uid % 3) for e in tail]},
                           index=pd.DatetimeIndex([e.time for e in tail]))
         tr.add_custom_events(df, cls)
         made = tr.events[-len(tail):]
         for e_old, e_new in zip(tail, made):
-            e_new.time = e_old.time        # keep python datetimes (the index yields Timestamps of equal value)
+            e_new._vf_time = e_old.time    # the time the model expects (= the table index)
         evs = evs[:j] + list(made)
         ctx.cat("add_custom_events")
     else:
@@ -149,17 +152,20 @@ def case(ctx, i, tier):
     # ---- independent schedule model ------------------------------------ #
     G = grid
 
+    def T(e):
+        return getattr(e, "_vf_time", None) or e.time
+
     def slot(e):
-        k = bisect.bisect_left(G, e.time)
+        k = bisect.bisect_left(G, T(e))
         return k if k < len(G) else None
 
     order = {id(e): k for k, e in enumerate(evs)}
-    live = [e for e in evs if slot(e) is not None and not (markov and e.time < G[0])]
-    live.sort(key=lambda e: (e.time, order[id(e)]))
+    live = [e for e in evs if slot(e) is not None and not (markov and T(e) < G[0])]
+    live.sort(key=lambda e: (T(e), order[id(e)]))
 
     def latent(e):
         k = slot(e)
-        return k > 0 and (e.time - G[k - 1]).total_seconds() <= L
+        return k > 0 and (T(e) - G[k - 1]).total_seconds() <= L
 
     ctx.sample = {"grid": G, "latency": L, "markov": markov, "warmup": warm, "fold": [i0, i1], "episode_length": eplen,
                   "events": [[type(e).__name__, e.uid, e.time] for e in evs][:60]}
